@@ -239,8 +239,8 @@ impl Calendar {
         let calendar_date = self
             .0
             .date_from_codes(
-                Some(IcuEra(resolved_fields.era_year.era.0)),
-                resolved_fields.era_year.year,
+                self.icu_era(&resolved_fields.era_year),
+                self.icu_year(&resolved_fields.era_year),
                 IcuMonthCode(resolved_fields.month_code.0),
                 resolved_fields.day,
             )
@@ -300,8 +300,8 @@ impl Calendar {
         let calendar_date = self
             .0
             .date_from_codes(
-                Some(IcuEra(resolved_fields.era_year.era.0)),
-                resolved_fields.era_year.year,
+                self.icu_era(&resolved_fields.era_year),
+                self.icu_year(&resolved_fields.era_year),
                 IcuMonthCode(resolved_fields.month_code.0),
                 resolved_fields.day,
             )
@@ -527,6 +527,32 @@ impl Calendar {
 }
 
 impl Calendar {
+    /// The era handed to `icu_calendar`: none for a bare arithmetic `year`, except
+    /// that the Japanese calendars read a missing era as "ce", which has no
+    /// year 0 or below.
+    fn icu_era(&self, era_year: &types::EraYear) -> Option<IcuEra> {
+        match &era_year.era {
+            Some(era) => Some(IcuEra(era.0)),
+            None if self.is_japanese() && era_year.year <= 0 => Some(IcuEra(tinystr!(16, "bce"))),
+            None => None,
+        }
+    }
+
+    fn icu_year(&self, era_year: &types::EraYear) -> i32 {
+        if era_year.era.is_none() && self.is_japanese() && era_year.year <= 0 {
+            1 - era_year.year
+        } else {
+            era_year.year
+        }
+    }
+
+    fn is_japanese(&self) -> bool {
+        matches!(
+            self.0 .0.kind(),
+            AnyCalendarKind::Japanese | AnyCalendarKind::JapaneseExtended
+        )
+    }
+
     pub(crate) fn get_era_info(&self, era_alias: &TinyAsciiStr<19>) -> Option<EraInfo> {
         match self.0 .0.kind() {
             AnyCalendarKind::Buddhist if era::BUDDHIST_ERA_IDENTIFIERS.contains(era_alias) => {
@@ -627,6 +653,7 @@ impl Calendar {
         }
     }
 
+    #[allow(dead_code)]
     pub(crate) fn get_calendar_default_era(&self) -> Option<EraInfo> {
         match self.0 .0.kind() {
             AnyCalendarKind::Buddhist => Some(era::BUDDHIST_ERA),
